@@ -31,7 +31,7 @@ Bases == {TScalar(x) : x \in Builtins \cup UserTypes \cup StructNames}
 Types == Bases
          \cup {Arr(t, 1) : t \in Bases}
          \cup {Arr(TScalar(x), 2) : x \in {"int", "float", "S1"}}
-         \cup {TMap(TScalar(x)) : x \in {"int", "float", "string", "S1", "S2", "txt"}}
+         \cup {TMap(TScalar(x)) : x \in {"int", "float", "string", "S1", "S2", "S5", "txt"}}
          \cup {TMap(Arr(TScalar("int"), 1)), Arr(TMap(TScalar("int")), 1)}
          \* arrays of two dimensions whose elements are typed maps (of scalars, of arrays)
          \cup {Arr(TMap(TScalar("int")), 2), Arr(TMap(Arr(TScalar("int"), 1)), 2)}
